@@ -1331,11 +1331,18 @@ func c04noDetachedContexts(c *Ctx) {
 					if cal.Name() == "WithoutCancel" {
 						bad = append(bad, fmt.Sprintf("%s: %s derives a context with context.WithoutCancel: the caller's deadline and cancellation do not reach what runs under it", c.P.Pos(call.Pos()), funcDisplay(fn)))
 					}
+					// (round 9) "the outcome is … the timeout result": every wrapper and every caller classifies a timeout by
+					// the context's error (DeadlineExceeded / Canceled — 503 vs 499, ErrTimeout vs ErrCanceled, what the
+					// limiter and the breaker take for a cancellation). context.Cause returns an arbitrary error instead:
+					// substituted for ctx.Err() anywhere on the way, the classification silently changes
+					if cal.Name() == "Cause" {
+						bad = append(bad, fmt.Sprintf("%s: %s reports context.Cause(ctx) where the module's wrappers and callers classify by ctx.Err() (DeadlineExceeded/Canceled)", c.P.Pos(call.Pos()), funcDisplay(fn)))
+					}
 				}
 			}
 		}
 	}
 	sortStrings(bad)
-	o := c.R.Check(len(bad) == 0 && sites >= 20, rule, "module#context-derivations", "no function of the module derives a context with context.WithoutCancel (every derived context keeps its parent's deadline and cancellation)", "-", fmt.Sprintf("%d call sites of package context; %s", sites, strings.Join(bad, "; ")), bad, sites)
+	o := c.R.Check(len(bad) == 0 && sites >= 20, rule, "module#context-derivations", "no function of the module derives a context with context.WithoutCancel (every derived context keeps its parent's deadline and cancellation) or reports context.Cause in place of the context's error (timeouts are classified by ctx.Err())", "-", fmt.Sprintf("%d call sites of package context; %s", sites, strings.Join(bad, "; ")), bad, sites)
 	o.Sites = sites
 }
